@@ -3,33 +3,33 @@
    stated about gen_shape, so it is re-checked against what the code says on every run; the
    *_matters lemmas show that the facts are not decorative (another value gives another function). *)
 From Coq Require Import ZArith List Bool Lia.
-From FxV Require Import lib.Dec model.M_Gov model.M_GovShape gen.Gen_GovShape proofs.P_Gov.
+From FxV Require Import lib.Dec model.M_Gov model.M_GovShape gen.Gen_GovShape proofs.P_Gov proofs.P_Gov3.
 (* not used below: makes the correspondence glue build before this file, so that the differential
    run still works when a generated fact breaks one of these theorems *)
 From FxV Require model.M_GovCorr.
 Import ListNotations.
 Open Scope Z_scope.
 
-Lemma exec_prefix_spec : forall ms s,
-  match exec_msgs s ms with
-  | Some s2 => exec_prefix s ms = (s2, true)
-  | None => snd (exec_prefix s ms) = false
+Lemma exec_prefix_spec : forall e ms s,
+  match exec_msgs e s ms with
+  | Some s2 => exec_prefix e s ms = (s2, true)
+  | None => snd (exec_prefix e s ms) = false
   end.
 Proof.
-  induction ms as [|m r IH]; cbn; intros s; [reflexivity|].
-  destruct (exec_one s m) as [s1|]; [apply IH|reflexivity].
+  intros e. induction ms as [|m r IH]; cbn; intros s; [reflexivity|].
+  destruct (exec_one e s m) as [s1|]; [apply IH|reflexivity].
 Qed.
 
 (* message execution: one cache branch opened before the loop, handlers on it, err not shadowed,
    written only when every message succeeded  ==>  M_Gov's all-or-nothing exec_msgs *)
-Theorem gen_exec_all_or_nothing : forall s1 ms,
-  exec_outcome_sh gen_shape s1 ms =
-  match exec_msgs s1 ms with Some s2 => (s2, SPassed) | None => (s1, SFailed) end.
+Theorem gen_exec_all_or_nothing : forall e s1 ms,
+  exec_outcome_sh gen_shape e s1 ms =
+  match exec_msgs e s1 ms with Some s2 => (s2, SPassed) | None => (s1, SFailed) end.
 Proof.
-  intros. unfold exec_outcome_sh. pose proof (exec_prefix_spec ms s1) as H.
-  destruct (exec_msgs s1 ms) as [s2|].
+  intros. unfold exec_outcome_sh. pose proof (exec_prefix_spec e ms s1) as H.
+  destruct (exec_msgs e s1 ms) as [s2|].
   - rewrite H. reflexivity.
-  - destruct (exec_prefix s1 ms) as [sp ok]. cbn in H. subst ok. reflexivity.
+  - destruct (exec_prefix e s1 ms) as [sp ok]. cbn in H. subst ok. reflexivity.
 Qed.
 
 (* AddDeposit: transfer, total, save, minimum, activation, record — and no successful return in
@@ -136,16 +136,17 @@ Definition with_exec (sh : gov_shape) (plain : bool) (cache_in_loop write_in_loo
 Definition m_ok : msg := {| m_type := 4; m_spend := []; m_act := AOk 7 |}.
 Definition m_bad : msg := {| m_type := 4; m_spend := []; m_act := AFail |}.
 Definition s_any : state := init (fun _ => 0) [].
+Definition e_any : xenv := {| x_P := proofs.P_Gov3.P0; x_kf := kf_code; x_now := 0; x_self := 0 |}.
 
 (* `res, err := ...` inside the loop: the failure is not seen, the branch is written, status passed *)
 Theorem shadowed_err_matters :
   let sh := with_exec gen_shape false 0 0 1 true true in
-  (ext (fst (exec_outcome_sh sh s_any [m_ok; m_bad])), snd (exec_outcome_sh sh s_any [m_ok; m_bad])) = ([7], SPassed) /\
-  (ext (fst (exec_outcome_sh gen_shape s_any [m_ok; m_bad])), snd (exec_outcome_sh gen_shape s_any [m_ok; m_bad])) = ([], SFailed).
+  (ext (fst (exec_outcome_sh sh e_any s_any [m_ok; m_bad])), snd (exec_outcome_sh sh e_any s_any [m_ok; m_bad])) = ([7], SPassed) /\
+  (ext (fst (exec_outcome_sh gen_shape e_any s_any [m_ok; m_bad])), snd (exec_outcome_sh gen_shape e_any s_any [m_ok; m_bad])) = ([], SFailed).
 Proof. vm_compute. split; reflexivity. Qed.
 
 (* one branch per message, written as soon as the message succeeds: the first effect survives *)
 Theorem per_message_branch_matters :
   let sh := with_exec gen_shape true 1 1 0 false false in
-  (ext (fst (exec_outcome_sh sh s_any [m_ok; m_bad])), snd (exec_outcome_sh sh s_any [m_ok; m_bad])) = ([7], SFailed).
+  (ext (fst (exec_outcome_sh sh e_any s_any [m_ok; m_bad])), snd (exec_outcome_sh sh e_any s_any [m_ok; m_bad])) = ([7], SFailed).
 Proof. vm_compute. reflexivity. Qed.
